@@ -13,6 +13,7 @@ package main
 //@ import "github.com/duo-labs/webauthn/protocol"
 //@ import "github.com/Cloud-Foundations/keymaster/keymasterd/eventnotifier"
 //@ import "encoding/pem"
+//@ import "database/sql"
 //@ use strings nethttp fmt oauth2 neturl time ssh crypto errors x509 keymasterd_jose pwauth cfssl math keymasterd_rate logging sync html
 
 // ---- C17: post-login redirects stay on the keymaster origin ------------------------------------
@@ -349,11 +350,14 @@ package main
 // the profile most recently loaded in this request, and whose it is (ghost)
 //@ ghost var ghostProfile *userProfile
 //@ ghost var ghostProfileUser string
+// the profile loaded last in this request came from the offline cache (the primary did not answer)
+//@ ghost var ghostProfileFromCache bool
 //@ func (*RuntimeState).LoadUserProfile
 //@   results profile, ok, fromCache, err
 //@   requires (ghostAuthed && (username == ghostAuthUser || ghostIsAdmin)) || (ghostPasswordOK && username == ghostPasswordUser)  #C08.read-self-or-admin @C08,C06
 //@   ghostset ghostProfile *userProfile = profile if err == nil
 //@   ghostset ghostProfileUser string = username if err == nil
+//@   ghostset ghostProfileFromCache bool = fromCache if err == nil
 //@   ensures err == nil ==> profile != nil
 
 // hardware tokens: the assertion must answer the challenge stored for the authenticated user, and the challenge
@@ -428,6 +432,9 @@ package main
 //@ func (*RuntimeState).SaveUserProfile
 //@   requires ghostAuthed                                                                                #C06.authed-save @C06,C08
 //@   requires username == ghostAuthUser || (ghostIsAdmin && ghostAuthLevel & AuthTypeU2F != 0)             #C08.save-self-or-admin-u2f @C08
+// C15: while the primary is unreachable nothing that would change a profile is attempted: a profile is written back
+// only if it was loaded from the primary in this request, for the same user
+//@   requires ghostProfileUser == username && !ghostProfileFromCache                                      #C15.no-write-while-primary-down @C15
 //@ func (*RuntimeState).DeleteUserProfile
 //@   requires ghostAuthed && ghostIsAdmin                                                                #C08.delete-admin @C08,C06
 //@ func (*RuntimeState).GetUsers
@@ -447,6 +454,7 @@ package main
 //@   handler loginPath
 //@ func (*RuntimeState).trySelfServiceGenerateBootstrapOTP
 //@   requires ghostPasswordOK && username == ghostPasswordUser                                              #C08.self-service-own-password @C08,C06
+//@   requires ghostProfileUser == username && !ghostProfileFromCache                                        #C15.self-service-only-with-primary @C15
 //@   atcall RuntimeState).SaveUserProfile overrides C06.authed-save (s2 *RuntimeState, username2 string, profile2 *userProfile) :: ghostPasswordOK && username2 == ghostPasswordUser  #C06.self-service-after-password @C06,C08
 //@   atcall RuntimeState).SaveUserProfile overrides C08.save-self-or-admin-u2f (s2 *RuntimeState, username2 string, profile2 *userProfile) :: ghostPasswordOK && username2 == ghostPasswordUser  #C08.self-service-own-profile @C08
 //@ func (*RuntimeState).userHasU2FTokens
@@ -569,3 +577,20 @@ package main
 //@ func getValidSSHPublicKey
 //@   atcall regexp.MatchString sets ghostKeyPatternOK bool (pattern string, s string, matched bool, err2 error) :: matched && err2 == nil
 //@   ensures clientKeyLine(userPubKey) ==> ghostKeyPatternOK        #C19.server-accepts-offered-key-types @C19
+
+// ---- C15: a completed synchronisation makes the offline cache equal to the primary, atomically ---------------
+// Everything that changes the destination happens inside the one transaction begun on it (so that a failure at any
+// statement leaves the previous content: database/sql transactions are trusted to be atomic), and that transaction
+// first empties both mirrored tables (so that deletions in the primary are mirrored too) before it is committed.
+//@ ghost var ghostSyncTx *sql.Tx
+//@ ghost var ghostSyncClearedProfiles bool
+//@ ghost var ghostSyncClearedSigned bool
+//@ func copyDBIntoSQLite
+//@   handler copyDBIntoSQLite
+//@   atcall (*database/sql.DB).Begin sets ghostSyncTx *sql.Tx (db *sql.DB, tx2 *sql.Tx, err2 error) :: tx2 if db == destination && err2 == nil
+//@   atcall (*database/sql.DB).Query requires (db *sql.DB, query string, args []any) :: db == source && strPrefixOf("SELECT ", query)   #C15.direct-statements-only-read-the-source @C15
+//@   atcall (*database/sql.Tx).Exec sets ghostSyncClearedProfiles bool (tx2 *sql.Tx, query string, args []any, res sql.Result, err2 error) :: true if tx2 == ghostSyncTx && err2 == nil && query == "DELETE FROM user_profile"
+//@   atcall (*database/sql.Tx).Exec sets ghostSyncClearedSigned bool (tx2 *sql.Tx, query string, args []any, res sql.Result, err2 error) :: true if tx2 == ghostSyncTx && err2 == nil && query == "DELETE FROM expiring_signed_user_data"
+//@   atcall (*database/sql.Tx).Prepare requires (tx2 *sql.Tx, query string) :: tx2 == ghostSyncTx && ghostSyncClearedProfiles && ghostSyncClearedSigned   #C15.inserts-in-the-transaction-after-clearing @C15
+//@   atcall (*database/sql.Tx).Commit requires (tx2 *sql.Tx) :: tx2 == ghostSyncTx && ghostSyncClearedProfiles && ghostSyncClearedSigned   #C15.commit-replaces-both-tables @C15
+//@ callers database/sql.DB).Exec only initializeSQLitetables, initDBPostgres  #C15.no-direct-exec-outside-schema-setup @C15
